@@ -23,6 +23,7 @@ import (
 	"net/http"
 	"net/url"
 	"strings"
+	"sync"
 	"time"
 
 	corev3 "github.com/envoyproxy/go-control-plane/envoy/config/core/v3"
@@ -52,6 +53,13 @@ var (
 	// ErrMissingLogoutRedirectURI is returned when the logout redirect uri is missing because it was not explicitly
 	// configured or the OIDC Discovery did not return it.
 	ErrMissingLogoutRedirectURI = errors.New("missing logout redirect uri")
+
+	// wellKnownLoaded holds the configurations the discovered endpoints have already been written to, and
+	// wellKnownMu protects it and those writes. A handler is created for every request from the shared
+	// configuration object: the endpoints are written once, and every later handler only synchronizes on
+	// the mutex before reading them.
+	wellKnownLoaded = make(map[*oidcv1.OIDCConfig]struct{})
+	wellKnownMu     sync.Mutex
 )
 
 // oidc handler is an implementation of the Handler interface that implements
@@ -852,6 +860,12 @@ func loadWellKnownConfig(client *http.Client, cfg *oidcv1.OIDCConfig) error {
 		return err
 	}
 
+	wellKnownMu.Lock()
+	defer wellKnownMu.Unlock()
+	if _, ok := wellKnownLoaded[cfg]; ok {
+		return nil
+	}
+
 	cfg.AuthorizationUri = wellKnownConfig.AuthorizationEndpoint
 	cfg.TokenUri = wellKnownConfig.TokenEndpoint
 	if cfg.GetJwksFetcher() == nil {
@@ -868,5 +882,6 @@ func loadWellKnownConfig(client *http.Client, cfg *oidcv1.OIDCConfig) error {
 		cfg.GetLogout().RedirectUri = wellKnownConfig.EndSessionEndpoint
 	}
 
+	wellKnownLoaded[cfg] = struct{}{}
 	return nil
 }
